@@ -567,7 +567,7 @@ def write_evidence(prop, tier, seed, cfg, runs, violations, known_hits, explore_
     probes = {}
     pn = ["short_read", "short_write", "eagain_midrecord", "eagain_boundary", "send_blocked", "header_split",
           "record_16384", "clock_jump_during_handshake", "tls13_pad_gt0", "quiesced", "fault_fired",
-          "one_byte_segments", "coalesced_read", "entropy_burst"]
+          "one_byte_segments", "coalesced_read", "entropy_burst", "ephemeral_keys_validated", "tls13_key_schedule_validated"]
     for d in runs:
         for name, v in zip(pn, d.get("probes", "").split(",")):
             if v:
